@@ -500,6 +500,12 @@ def truth(inst):
     cont = [j for j in range(n) if j not in ints]
     box = int_box(inst)
     assert box is not None, "generator must bound every integer variable"
+    if box != "INF":
+        size = 1
+        for u in box:
+            size *= max(1, u + 1)
+        if size > 300000:
+            raise ValueError("enumeration box too large for the exact oracle (instances of this size carry their answer in 'known')")
     if box == "INF" or any(u < 0 for u in box):
         return ("INF",)
     w = [F(v) if inst["minimize"] else -F(v) for v in c]
@@ -584,6 +590,17 @@ def judge(inst, var, out, tr):
             return "status MAX_ITER with the default LP iteration / node limits on a tiny problem"
     if tr[0] == "UNB" and st not in ("UNBOUNDED", "MAX_ITER"):
         return f"the relaxation is unbounded but the status is {st}"
+    return None
+
+
+def known_class(inst, var, bad):
+    """id of the reported finding whose input class and failure mode this rejection falls in, else None"""
+    eps = 1e-6 if var.get("eps") is None else var["eps"]
+    if max((abs(v) for r in inst["A"] for v in r), default=0) * eps >= 0.1:
+        return "C04-rowscale-lp-eps"            # F1: a coefficient a with |a| * eps >= 0.1, eps forwarded to solve_lp
+    nz = [abs(v) for v in inst["c"] if v]
+    if nz and max(nz) / min(nz) >= 2**40 and "!= c.x" in bad:
+        return "C04-objective-huge-cost"        # F3: reported objective != c.x when costs differ by a factor >= 2^40
     return None
 
 
@@ -697,8 +714,9 @@ def _work(item):
     inst, variants = item
     tr = truth(inst)
     outs, verdicts, ports = [], [], []
+    tmo = 5 if small_enough(inst) else 40          # structured large instances take up to ~1 s unloaded
     for var in variants:
-        out = run_impl(inst, var)
+        out = run_impl(inst, var, timeout=tmo)
         outs.append(out)
         verdicts.append(judge(inst, var, out, tr))
         if not small_enough(inst):
@@ -731,7 +749,7 @@ def alias_check(inst, variants, outs):
     for k in (1, 0, 1):
         var = variants[k]
         sh = shared if var.get("warm_start") is None or var.get("warm_start") == ws0 else shared[:4] + (list(var["warm_start"]),)
-        out = run_impl(inst, var, shared=sh)
+        out = run_impl(inst, var, shared=sh, timeout=5 if small_enough(inst) else 40)
         if shared != before:
             return var, f"solve_milp modified its caller's input objects: {before} -> {shared}"
         if not _same_out(out, outs[k]):
@@ -807,7 +825,7 @@ def shrink(inst, var, still_bad, budget_s=25.0):
 
 def _bad(inst, var):
     try:
-        if int_box(inst) is None:
+        if not small_enough(inst) or int_box(inst) is None:
             return False
         tr = truth(inst)
         out = run_impl(inst, var, timeout=3)
@@ -880,7 +898,7 @@ def run(ctx: Ctx):
         inst = gen_bindet(ctx.rng)
         items.append((inst, gen_variants(ctx.rng, inst, 2)))
     # ---- round-2 families (HARDENING.md): H events, M magnitudes, S sizes, O option sweeps (I forms: in gen_variants; A: in _work)
-    for inst in FAM.event_corpus(ctx.budget(4, 12)):
+    for inst in FAM.event_corpus(ctx.budget(6, 12)):
         items.append((inst, [_norm_var({"heuristics": False}), _norm_var({}), _norm_var({"lns_iterations": 3, "form": "tuple"})]))
     kept, seen = FAM.event_search(ctx.rng, pmap, ctx.budget(2500, 40000), ctx.budget(5, 40), ctx.budget(2, 6))
     for e, k in seen.items():
@@ -933,9 +951,22 @@ def run(ctx: Ctx):
             ctx.count("opt_solution_limit", var["solution_limit"])
             ctx.count("opt_warm", "none" if var["warm_start"] is None else "given")
             ctx.count("opt_limits", ("iter" if var["max_iter"] is not None else "") + ("nodes" if var["max_nodes"] is not None else "") or "default")
+            kid = known_class(inst, var, bad) if bad else None
+            if kid:
+                # classes of reported findings (F1 row magnitude x forwarded eps, F3 objective read off a tableau row with a 2^40 cost):
+                # only an OPEN entry of known_findings.json with that id turns a hit into KNOWN-FINDING; otherwise it is a VIOLATION
+                ctx.count("known_class_hits", kid)
+                if any(f.get("id") == kid for f in ctx.open_findings()):
+                    ctx.known_hit(kid, f"{bad}; c={inst['c']} A={inst['A']} b={inst['b']} ints={inst['ints']} minimize={inst['minimize']}")
+                    continue
             if bad:
-                ctx.count("oracle_rejects", 1)
-                if not reported and len(ctx.violations) < 5:
+                ctx.count("oracle_rejects", inst.get("family", "?").split(":")[0] + ": " + " ".join(bad.split()[:4]))
+                if not reported and len(ctx.violations) < 5 and (not small_enough(inst) or inst.get("known") is not None):
+                    # large structured instance: its answer is known by construction, not by enumeration - report it as it is
+                    ctx.violation(f"solve_milp: {bad}", {"kind": "milp", **{k: v for k, v in inst.items() if k != "known"}, "options": var,
+                                                         "impl": out, "exact_verdict": [str(v) for v in tr[:2]], "known": inst.get("known")})
+                    reported = True
+                elif not reported and len(ctx.violations) < 5:
                     small = shrink(inst, var, _bad)
                     o2 = run_impl(small, var)
                     t2 = truth(small)
@@ -1052,6 +1083,8 @@ def replay(obj):
     kind = obj.get("kind")
     if kind in ("milp", "milp-group"):
         inst = {k: obj[k] for k in ("c", "A", "b", "ints", "minimize")}
+        if obj.get("known") is not None:
+            inst["known"] = obj["known"]
         var = _norm_var(obj.get("options", {}))
         tr = truth(inst)
         rc = 0
